@@ -51,21 +51,21 @@ type scenStat struct {
 
 // Run accumulates everything one check invocation does.
 type Run struct {
-	Cfg       Config
-	Findings  []*Finding
-	start     time.Time
-	scen      []*scenStat
-	fails     []failRec
-	samples   []any
-	ntKeys    map[uint64]struct{}
-	outcomes  map[string]int
-	facetFail map[string]int
-	capsHit   []string
-	Extra     map[string]any
+	Cfg         Config
+	Findings    []*Finding
+	start       time.Time
+	scen        []*scenStat
+	fails       []failRec
+	samples     []any
+	ntKeys      map[uint64]struct{}
+	outcomes    map[string]int
+	facetFail   map[string]int
+	capsHit     []string
+	Extra       map[string]any
 	Assumptions []string
 	violations  int
-	mu        sync.Mutex
-	scenarios map[string]*Scenario
+	mu          sync.Mutex
+	scenarios   map[string]*Scenario
 }
 
 func NewRun(cfg Config) *Run {
@@ -122,7 +122,11 @@ func (r *Run) RunScenario(sc *Scenario) {
 			for cs := range ch {
 				rs := make([]*Result, len(cs.Srcs))
 				for i, s := range cs.Srcs {
-					rs[i] = r.Cfg.Pool.Exec(s)
+					if cs.FreshRefs && i > 0 {
+						rs[i] = r.Cfg.Pool.ExecFresh(s)
+					} else {
+						rs[i] = r.Cfg.Pool.Exec(s)
+					}
 				}
 				for _, x := range rs {
 					if x.Micros > 5000000 {
@@ -204,9 +208,15 @@ func (r *Run) AddCustom(name, rule string, bounds map[string]any, states, transi
 	fmt.Printf("scenario %-28s cases=%d states=%d transitions=%d nontrivial=%d outcomes=%d exhaustive=%v %.1fs\n", name, cases, states, transitions, nontrivial, outcomes, exhaustive, wall)
 }
 
-func (r *Run) AddNT(key string)        { r.mu.Lock(); r.ntKeys[h64(key)] = struct{}{}; r.mu.Unlock() }
-func (r *Run) AddSample(s any)         { r.mu.Lock(); if len(r.samples) < 16 { r.samples = append(r.samples, s) }; r.mu.Unlock() }
-func (r *Run) AddCap(s string)         { r.mu.Lock(); r.capsHit = append(r.capsHit, s); r.mu.Unlock() }
+func (r *Run) AddNT(key string) { r.mu.Lock(); r.ntKeys[h64(key)] = struct{}{}; r.mu.Unlock() }
+func (r *Run) AddSample(s any) {
+	r.mu.Lock()
+	if len(r.samples) < 16 {
+		r.samples = append(r.samples, s)
+	}
+	r.mu.Unlock()
+}
+func (r *Run) AddCap(s string) { r.mu.Lock(); r.capsHit = append(r.capsHit, s); r.mu.Unlock() }
 func (r *Run) AddFail(scen, key string, feat map[string]string, srcs []string, f Fail) {
 	r.mu.Lock()
 	r.facetFail[f.Facet]++
@@ -619,13 +629,13 @@ func (r *Run) Replay(file string) int {
 		Fatalf("replay: %v", err)
 	}
 	var rep struct {
-		Scenario string
-		Path     []int
-		Facet    string
+		Scenario  string
+		Path      []int
+		Facet     string
 		Deviation string
-		Case     string
-		Features map[string]string
-		Srcs     []string
+		Case      string
+		Features  map[string]string
+		Srcs      []string
 	}
 	if err := json.Unmarshal(b, &rep); err != nil {
 		Fatalf("replay: %v", err)
